@@ -3,6 +3,21 @@ import Hannibal.Monitor.Basic
   C06 (single-actor part) — a failed actor is visible as errors, never as hangs:
   after the failure every operation on it resolves with an error, nothing of it
   runs any more, its timers end.
+
+  The property is the conjunction of two monitors over the same state / the same update `next06`:
+  `monC06`  : (proved for the model, `Props/C06.lean`) after the failure no callback begins; after
+              failure + termination no timer fires / re-arms and no tick begins; a `ret` after the failure:
+              await / halt / tryHalt return an error, join / consume return `.none` or an error, an
+              `okReply` only for a call begun before the failure whose handler completed ok, a `ping`
+              begun after the failure never returns ok; at quiescence after a failure all timers ended.
+  `monC06t` : (trace-only) a send begun after the failure never returns ok; at quiescence after a failure
+              no operation is pending.
+  `monC06s` : (proved; a weakening of the send clause of `monC06t`, not needed on traces) a send begun after
+              the failed actor's task is gone never returns ok.
+  `monC06q` : (proved for traces that never reuse an operation id, `uniqueBegins`; it is the quiescence
+              clause of `monC06t` on its own) at quiescence after a failure no operation is pending.
+  `monC06 ∧ monC06t` accepts exactly the traces the one-piece formulation (`monC06orig` in
+  `Props/C06.lean`, theorem `monC06_split`) accepts.
 -/
 namespace Hannibal
 
@@ -14,35 +29,102 @@ structure C06St where
   terminated : Bool
   deriving Repr, DecidableEq
 
+/-- the events that make the actor "failed" -/
+def fails06 (failOnTimeout : Bool) : Label → Bool
+  | .cbAbandon _ => failOnTimeout
+  | l => l.isFailure
+
+def next06 (c : MonCtx) (st : C06St) : Label → C06St
+  | .begin o _ k => { st with ops := (o, (k, st.failed)) :: st.ops }
+  | .cbEnd (.handle m) true => { st with finishedOk := m :: st.finishedOk }
+  | .ctxTimer t _ _ => { st with timers := (t, false) :: st.timers }
+  | .timerEnd t => { st with timers := st.timers.map (fun p => if p.1 == t then (t, true) else p) }
+  | l =>
+    let st := if fails06 c.cfg.failOnTimeout l then { st with failed := true } else st
+    if l.terminates then { st with terminated := true } else st
+
+/-- verdict on the result `r` of an operation of kind `k` returning after the failure (proved part) -/
+def retBad06 (k : OpKind) (late : Bool) (fin : List Nat) (r : Res) : Bool :=
+  match k, r with
+  | .await, r | .halt, r | .tryHalt, r => !r.isErr
+  | .join, r | .consume, r => !(r == .none || r.isErr)
+  | k, .okReply rep => !(!late && k.isCall && fin.contains rep.m)
+  | .ping, .ok => late
+  | _, _ => false
+
+/-- trace-only part: a send begun after the failure returns ok -/
+def retBad06t (k : OpKind) (late : Bool) (r : Res) : Bool :=
+  late && k.isSend && r == .ok
+
+def bad06 (st : C06St) : Label → Bool
+  | .cbBegin _ => st.failed
+  | .fire _ _ | .tickBegin _ _ | .timerArm _ _ => st.failed && st.terminated
+  | .ret o r =>
+    st.failed &&
+      (match lookup o st.ops with
+       | none => false
+       | some (k, late) => retBad06 k late st.finishedOk r)
+  | .quiescent _ => st.failed && !st.timers.all (·.2)
+  | _ => false
+
+def bad06t (st : C06St) : Label → Bool
+  | .ret o r =>
+    st.failed &&
+      (match lookup o st.ops with
+       | none => false
+       | some (k, late) => retBad06t k late r)
+  | .quiescent pend => st.failed && !pend.all (fun o => (lookup o st.ops).isNone)
+  | _ => false
+
 def monC06 (c : MonCtx) : Mon C06St where
   init := { failed := false, ops := [], finishedOk := [], timers := [], terminated := false }
-  step st l :=
+  step st l := if bad06 st l then none else some (next06 c st l)
+
+def monC06t (c : MonCtx) : Mon C06St where
+  init := { failed := false, ops := [], finishedOk := [], timers := [], terminated := false }
+  step st l := if bad06t st l then none else some (next06 c st l)
+
+/-- state of `monC06s`: op ↦ (kind, begun after the failure *and* the end of the task) -/
+structure C06sSt where
+  failed : Bool
+  terminated : Bool
+  ops : List (Nat × (OpKind × Bool))
+  deriving Repr, DecidableEq
+
+def next06s (c : MonCtx) (st : C06sSt) : Label → C06sSt
+  | .begin o _ k => { st with ops := (o, (k, st.failed && st.terminated)) :: st.ops }
+  | l =>
+    { st with failed := st.failed || fails06 c.cfg.failOnTimeout l,
+              terminated := st.terminated || l.terminates }
+
+def bad06s (st : C06sSt) : Label → Bool
+  | .ret o r =>
+    (match lookup o st.ops with
+     | some (k, true) => k.isSend && r == .ok
+     | _ => false)
+  | _ => false
+
+def monC06s (c : MonCtx) : Mon C06sSt where
+  init := { failed := false, terminated := false, ops := [] }
+  step st l := if bad06s st l then none else some (next06s c st l)
+
+/-- the quiescence clause of `monC06t` on its own -/
+def bad06q (st : C06St) : Label → Bool
+  | .quiescent pend => st.failed && !pend.all (fun o => (lookup o st.ops).isNone)
+  | _ => false
+
+def monC06q (c : MonCtx) : Mon C06St where
+  init := { failed := false, ops := [], finishedOk := [], timers := [], terminated := false }
+  step st l := if bad06q st l then none else some (next06 c st l)
+
+/-- well-formedness of a trace: every `begin` carries a fresh operation id -/
+def monUniq : Mon (List Nat) where
+  init := []
+  step u l :=
     match l with
-    | .begin o _ k => some { st with ops := (o, (k, st.failed)) :: st.ops }
-    | .cbEnd (.handle m) true => some { st with finishedOk := m :: st.finishedOk }
-    | .cbBegin _ => if st.failed then none else some st
-    | .fire _ _ | .tickBegin _ _ | .timerArm _ _ => if st.failed && st.terminated then none else some st
-    | .ctxTimer t _ _ => some { st with timers := (t, false) :: st.timers }
-    | .timerEnd t => some { st with timers := st.timers.map (fun p => if p.1 == t then (t, true) else p) }
-    | .ret o r =>
-      if !st.failed then some st else
-      (match lookup o st.ops with
-       | none => some st
-       | some (k, late) =>
-         (match k, r with
-          | .await, r | .halt, r | .tryHalt, r => if r.isErr then some st else none
-          | .join, r | .consume, r => if r == .none || r.isErr then some st else none
-          | k, .okReply rep => if !late && k.isCall && st.finishedOk.contains rep.m then some st else none
-          | .ping, .ok => if late then none else some st
-          | k, .ok => if late && k.isSend then none else some st
-          | _, _ => some st))
-    | .quiescent pend =>
-      if st.failed then
-        (if pend.all (fun o => (lookup o st.ops).isNone) && st.timers.all (·.2) then some st else none)
-      else some st
-    | l =>
-      let fail := l.isFailure || (match l with | .cbAbandon _ => c.cfg.failOnTimeout && !st.failed | _ => false)
-      let st := if fail then { st with failed := true } else st
-      if l.terminates then some { st with terminated := true } else some st
+    | .begin o _ _ => if u.contains o then none else some (o :: u)
+    | _ => some u
+
+def uniqueBegins (ls : List Label) : Bool := monUniq.ok ls
 
 end Hannibal
